@@ -534,7 +534,8 @@ def _callers_guard(prog, f, bad, depth=0, trail=None):
                     found = False
                     for x in oa:
                         for y in ob:
-                            if x != y and cctx.relating_guard_at(cn, x, y) is not None:
+                            # b is the indexed operand of the kernel: the caller's check must not bound *its* argument from above only
+                            if x != y and cctx.relating_guard_at(cn, x, y, big=(x if kind == "foreign-bound" else None)) is not None:
                                 found = True
                     if oa and oa == ob and len(oa) == 1:
                         found = True     # the same object is passed for both operands
